@@ -184,7 +184,7 @@ pub fn run(ctx: &mut Ctx) {
         run_one(ctx, &rs, s, &cfg, "sigma");
         !ctx.should_stop()
     });
-    let p = DocParams { max_nodes: doc_nodes, globals: vec![ID_TAG, ID_VOID], exclude: vec![], unknown_subsets: true, devs: 1, payload_classes: false, big_payloads: false, noncanonical: false, width_devs: true, extras: true };
+    let p = DocParams { max_nodes: doc_nodes, globals: vec![ID_TAG, ID_VOID], exclude: vec![], unknown_subsets: true, devs: 1, payload_classes: false, big_payloads: false, noncanonical: false, width_devs: true, extras: true, all_widths: false };
     let kinds = [MutKind::Replace, MutKind::Delete, MutKind::Truncate, MutKind::Suffix];
     docs::for_each_doc(ctx, &rs, &p, &mut |ctx, doc| {
         let (bytes, lay) = ref_encode(doc);
